@@ -22,11 +22,14 @@ template<> struct Delegate<void, void*> : public Delegate_Base {
     inline __attribute__((always_inline)) void operator()(void* item) const { harness_ctor(item); }
 };
 // Stand-in for std::unordered_set<Item*, ItemHash, ItemEqual> (libstdc++ hash-table code is outside the property and costs minutes of
-// symbolic execution): a 4-slot array with the same find / emplace / erase / iteration contract, keyed through the real ItemEqual.
+// symbolic execution): a small array (USLOTS entries) with the same find / emplace / erase / iteration contract, keyed through the real ItemEqual.
+#ifndef USLOTS
+#define USLOTS 2
+#endif
 namespace std {
 template<class K, class H, class E> class verif_uset {
 public:
-    K slot[4];
+    K slot[USLOTS];
     struct iterator {
         K* p; K* e;
         K& operator*() const { return *p; }
@@ -35,18 +38,18 @@ public:
         bool operator==(const iterator& r) const { return p == r.p; }
         bool operator!=(const iterator& r) const { return p != r.p; }
     };
-    verif_uset() { for (int i = 0; i < 4; i++) slot[i] = nullptr; }
-    verif_uset(verif_uset&& r) { for (int i = 0; i < 4; i++) { slot[i] = r.slot[i]; r.slot[i] = nullptr; } }
-    iterator end() { return iterator{slot + 4, slot + 4}; }
-    iterator begin() { iterator it{slot, slot + 4}; if (!*it.p) ++it; return it; }
-    iterator find(const K& k) { for (int i = 0; i < 4; i++) if (slot[i] && E()(slot[i], k)) return iterator{slot + i, slot + 4}; return end(); }
+    verif_uset() { for (int i = 0; i < USLOTS; i++) slot[i] = nullptr; }
+    verif_uset(verif_uset&& r) { for (int i = 0; i < USLOTS; i++) { slot[i] = r.slot[i]; r.slot[i] = nullptr; } }
+    iterator end() { return iterator{slot + USLOTS, slot + USLOTS}; }
+    iterator begin() { iterator it{slot, slot + USLOTS}; if (!*it.p) ++it; return it; }
+    iterator find(const K& k) { for (int i = 0; i < USLOTS; i++) if (slot[i] && E()(slot[i], k)) return iterator{slot + i, slot + USLOTS}; return end(); }
     std::pair<iterator, bool> emplace(const K& k) {
         iterator f = find(k); if (f != end()) return {f, false};
-        for (int i = 0; i < 4; i++) if (!slot[i]) { slot[i] = k; return {iterator{slot + i, slot + 4}, true}; }
+        for (int i = 0; i < USLOTS; i++) if (!slot[i]) { slot[i] = k; return {iterator{slot + i, slot + USLOTS}, true}; }
         __CPROVER_assume(false); return {end(), false};
     }
     size_t erase(const K& k) { iterator f = find(k); if (f == end()) return 0; *f.p = nullptr; return 1; }
-    size_t size() const { size_t n = 0; for (int i = 0; i < 4; i++) if (slot[i]) n++; return n; }
+    size_t size() const { size_t n = 0; for (int i = 0; i < USLOTS; i++) if (slot[i]) n++; return n; }
 };
 }
 #define unordered_set verif_uset
